@@ -375,6 +375,8 @@ func firstLine(s string) string {
 	return s
 }
 
+var c17Spacer = strings.NewReplacer(".", " .\t", "[", " [ ", "]", "\n]", "=", " = ", "{", " {\r\n", "}", " } ", ",", " , ")
+
 var c17Lexemes = []string{"T", "k", "k2", "{", "}", "=", ",", ".", "[", "]", `"s\n\/\\\""`, "7", "-0x1F", "+.5e-3", "\"é\\t☺\xff\""}
 
 func init() {
@@ -421,6 +423,8 @@ func init() {
 				if len(cur) > 0 {
 					yield("T{" + strings.Join(cur, ",") + "}")
 					yield("T {\n " + strings.Join(cur, " ,\n ") + ",\n}")
+					// blanks / line breaks between ALL tokens, also inside field paths
+					yield(c17Spacer.Replace("T{" + strings.Join(cur, ",") + "}"))
 				}
 				if len(cur) == n {
 					return
